@@ -99,9 +99,10 @@ def contradicts(expect, obs):
             else:
                 why += check_lex(text, obs["raw_lines"])
         elif e[0] == "top_str_is":
+            from e2.strmodel import unescape_rust
             top = obs["cells"][0] if obs["cells"] else None
-            want = '"' + e[1] + '"' if all(ch.isalnum() or ch in " _-" or ord(ch) > 127 for ch in e[1]) else None
-            if top is None or top[0] != "str" or (want is not None and top[1] != want):
+            got = unescape_rust(top[1]) if top and top[0] == "str" else None     # the cell is printed with Rust's Debug escapes
+            if top is None or top[0] != "str" or (got is not None and got != e[1]):
                 why.append("top of stack %r is not the string %r" % (top, e[1]))
         elif e[0] == "first_cells_are":
             got = [(c[0], c[1]) for c in obs.get("first_cells", [])]
